@@ -109,32 +109,33 @@ type KnownFinding struct {
 }
 
 type RunResult struct {
-	Spec       *RunSpec
-	Tier       *TierSpec
-	Paths      int
-	Done       int
-	Nontrivial int
-	Instrs     int
-	Forks      int
-	Merges     int
-	ModelHits  int
-	Ends       map[string]int
-	Covers     map[string]bool
-	Findings   []*Finding
-	Witnesses  []*Witness
-	Queries    map[string]int
-	SolverSec  map[string]float64
-	Final      int
-	RepoFuncs  []string
-	Wall       float64
-	Load       float64
-	Complete   bool
-	StopReason string
-	Skipped    string
-	MaxThreads int
-	WitnessOK  int
-	WitnessBad []string
-	PkgName    string
+	Spec        *RunSpec
+	Tier        *TierSpec
+	Paths       int
+	Done        int
+	Nontrivial  int
+	Instrs      int
+	Forks       int
+	Merges      int
+	ModelHits   int
+	Ends        map[string]int
+	Covers      map[string]bool
+	Findings    []*Finding
+	Witnesses   []*Witness
+	Queries     map[string]int
+	SolverSec   map[string]float64
+	Final       int
+	RepoFuncs   []string
+	Wall        float64
+	Load        float64
+	Complete    bool
+	StopReason  string
+	Skipped     string
+	MaxThreads  int
+	WitnessOK   int
+	WitnessBad  []string
+	PkgName     string
+	SkippedInit []string
 }
 
 func main() {
@@ -410,6 +411,11 @@ func cmdRun(args []string) int {
 		say("run=%s paths=%d done=%d findings=%d complete=%v wall=%.1fs load=%.1fs ends=%v", run.Name, res.Paths, res.Done, len(res.Findings), res.Complete, res.Wall, res.Load, compactEnds(res.Ends))
 		if !res.Complete {
 			say("INCOMPLETE run=%s: %s %s", run.Name, res.StopReason, detailEnds(res.Ends))
+			if os.Getenv("GOSYM_DEBUG") != "" {
+				for _, s := range res.SkippedInit {
+					fmt.Fprintln(os.Stderr, "  skipped init:", s)
+				}
+			}
 		}
 		if res.Done == 0 && len(res.Findings) == 0 {
 			say("NOTHING-EXPLORED run=%s: no path completed; this is a machinery problem, not a verdict", run.Name)
@@ -691,6 +697,9 @@ func exploreRun(spec *Spec, run *RunSpec, ts *TierSpec, nworkers, seed int, know
 		for f := range e.repoFuncs {
 			funcs[f] = true
 		}
+		if len(res.SkippedInit) == 0 {
+			res.SkippedInit = e.skippedInit
+		}
 		if e.maxThreads > res.MaxThreads {
 			res.MaxThreads = e.maxThreads
 		}
@@ -722,6 +731,7 @@ func newEngine(prog *ssa.Program, run *RunSpec, ts *TierSpec, knownIDs map[strin
 		e.maxSteps = ts.MaxSteps
 	}
 	e.initDeny = map[string]bool{}
+	e.preemptOK = map[*ssa.Function]bool{}
 	for _, p := range defaultInit {
 		e.initAllow[p] = true
 	}
